@@ -109,7 +109,7 @@ SKEL_MORE = OrderedDict([
 TOTAL_ONLY = OrderedDict([("unsupported", "U()"), ("list_u", "[U()]"), ("bytes", "b'ab'"), ("set", "{1, 2}"), ("str_any", "s0"), ("list_sany", "[s0]")])
 
 BOUNDS = {
-    "quick": {"skeletons": list(SKEL_QUICK), "pairs": "all unordered pairs incl. self (105)", "str": "<= 3 ASCII chars in pair queries; <= 2 arbitrary code points (incl. surrogates) in total.*any queries", "int": "32-bit ints symbolic over their whole range; ints beyond 32 bits: 2**31 < |g| < 2**39 (5-byte encodings; thorough adds 6-byte ones), larger ones outside", "float": "finite reals (symbolic) + concrete nan / inf / -0.0 (thorough: -inf, 0.0, 5e-324)", "bigint": "2**31 < |g| < 2**39; pairs of two negative big ints: 2**31 < |g| < 2**31 + 2**17"},
+    "quick": {"skeletons": list(SKEL_QUICK), "pairs": "all unordered pairs incl. self (105)", "str": "<= 3 ASCII chars in pair queries; <= 2 arbitrary code points (incl. surrogates) in total.*any queries", "int": "32-bit ints symbolic over their whole range; ints beyond 32 bits: 2**31 < |g| <= 2**40 (5- and 6-byte encodings, both signs at the 2**39 / 2**40 boundaries; thorough adds 7-byte ones), larger ones outside", "float": "finite reals (symbolic) + concrete nan / inf / -0.0 (thorough: -inf, 0.0, 5e-324)", "bigint": "2**31 < |g| <= 2**40; pairs of two negative big ints: 2**31 < |g| < 2**31 + 2**17"},
     "thorough": {"skeletons": list(SKEL_QUICK) + list(SKEL_MORE), "pairs": "all unordered pairs incl. self", "str": "<= 4 ASCII chars in pair queries; <= 2 arbitrary code points in total.*any queries", "int": "as quick", "float": "as quick"},
 }
 LAST_DETAIL = [""]
@@ -269,7 +269,7 @@ def _pres(names, strlen, anystr=False, gnarrow=False):
         elif base[0] == "k":
             pres.append("0 <= %s < 9" % n)
         elif base[0] == "g":
-            pres.append(("2**31 < %s < 2**31 + 2**17" if gnarrow else "2**31 < %s < 2**39") % n)
+            pres.append(("2**31 < %s < 2**31 + 2**17" if gnarrow else "2**31 < %s <= 2**40") % n)
     return pres
 
 
